@@ -24,6 +24,9 @@ ENGINES = [
 ]
 
 
+REGISTERED = set((VERIF / "tools" / "registered.txt").read_text().split())  # checks that were swept on the unchanged tree and self-tested
+
+
 def main():
     ids = [json.loads(l)["id"] for l in (VERIF / "properties.jsonl").read_text().splitlines() if l.strip()]
     checks, na = [], []
@@ -33,7 +36,7 @@ def main():
         if pid in NOT_APPLICABLE:
             na.append({"property_id": pid, "reason": NOT_APPLICABLE[pid]})
             continue
-        if not path.exists():
+        if not path.exists() or pid not in REGISTERED:
             na.append({"property_id": pid, "reason": PENDING_REASON})
             continue
         mod = importlib.import_module(f"props.{pid.lower()}")
